@@ -109,6 +109,57 @@ def _ref_sources(body, operand):
     return out
 
 
+def open_index_actuals(facts):
+    """What Db::open_inner hands to open_index, over the symbolic configuration: the values of the call's arguments on the
+    first path that reaches it (the whole Config today; paths and versions picked out of it in a narrower signature)."""
+    cached = facts.__dict__.get("_oi_actuals", "?")
+    if cached != "?":
+        return cached
+    facts._oi_actuals = None
+    body = facts.fn("db::Db::open_inner")
+    cfg_adt = facts.adt("config::Config")
+    meta_adt = facts.adt("config::Meta")
+    if body is None or cfg_adt is None or meta_adt is None:
+        return None
+    mfields = [f["name"] for f in meta_adt["variants"][0]["fields"]]
+    cfields = [f["name"] for f in cfg_adt["variants"][0]["fields"]]
+    meta = _Agg("adt", "config::Meta", 0, "Meta", [_Sym("meta." + f) for f in mfields])
+    config = _Agg("adt", "config::Config", 0, "Config", [meta if f == "meta" else _Sym("config." + f) for f in cfields])
+    captured = []
+
+    def oracle(dom, it, name, args, vals, store):
+        if name == "config::open":
+            return [(_ok(config), store)]
+        if name == "config::Config::hash_assets":
+            return [(_Sym("hash"), store)]
+        if name == "db::open_index":
+            if not captured:
+                captured.append(list(vals))
+            return [(_err(_Sym("open_index_error")), store)]
+        if name.endswith("::with_context") or name.endswith(">::context"):
+            return [(vals[0], store)]
+        if name in ("log::max_level",):
+            return [(_Sym("log_level"), store)]
+        if name == "std::cmp::PartialOrd::le" and any(isinstance(v, _Sym) and v.name == "log_level" for v in vals):
+            return [(_Const(False), store)]
+        if name in ("<std::path::PathBuf as std::ops::Deref>::deref", "std::path::PathBuf::as_path",
+                    "<std::path::PathBuf as std::convert::AsRef<std::path::Path>>::as_ref",
+                    "<std::string::String as std::ops::Deref>::deref", "std::string::String::as_str"):
+            return [(vals[0], store)]
+        return None
+    dom = _EffectDomain({}, oracle=oracle)
+    from ..callgraph import CallGraph as _CG
+    own = {p for p in _CG(facts).exclusive("db::Db::open_inner") if facts.fn(p) is not None and facts.fn(p).file == body.file}
+    dom.uninterp = lambda n: n not in own
+    it = _core.Interp(facts, dom, budget=100000)
+    try:
+        it.run(body, [_Const(False)], {})
+    except _core.Undecided:
+        return None
+    facts._oi_actuals = captured[0] if captured else None
+    return facts._oi_actuals
+
+
 def open_index_summary(facts):
     """Effect summary of db::open_index over a symbolic configuration (helpers followed)."""
     body = facts.fn("db::open_index")
@@ -138,8 +189,20 @@ def open_index_summary(facts):
     dom = _EffectDomain(effects, oracle=oracle)
     dom.uninterp = lambda n: facts.fn(n) is None
     it = _core.Interp(facts, dom, budget=300000)
-    st, ref = it.fresh_slot({}, config)
-    outs = it.run(body, [ref], st)
+    actuals = open_index_actuals(facts) if body.arg_count != 1 or "config::Config" not in body.local_ty(1) else None
+    if actuals is not None and len(actuals) == body.arg_count:
+        # a narrower signature: the arguments are what open_inner passes, expressed over the same symbolic configuration
+        st, argv = {}, []
+        for i_, v_ in enumerate(actuals):
+            if body.local_ty(i_ + 1).startswith("&"):
+                st, r_ = it.fresh_slot(st, v_)
+                argv.append(r_)
+            else:
+                argv.append(v_)
+        outs = it.run(body, argv, st)
+    else:
+        st, ref = it.fresh_slot({}, config)
+        outs = it.run(body, [ref], st)
     return dom, it, body, outs
 
 
@@ -286,6 +349,15 @@ def r3_invalidate_before_destroy(facts, rep):
         return
     rep.count("open_index paths", len(outs))
     bad = {}
+    def presence(p_):
+        r_ = repr(p_)
+        return "index_path" in r_ and any(w in r_ for w in ("is_dir", "exists", "metadata", "is_file"))
+    wipe_side = {}
+    for o in outs:
+        if o.kind == "ret" and any(e[0] == "remove_dir_all" for e in dom.log(o.store)):
+            for p_, b_ in dom.pc(o.store):
+                if presence(p_):
+                    wipe_side.setdefault(repr(p_), set()).add(b_)
     n_destroy = 0
     n_create = 0
     dirty = []
@@ -307,11 +379,13 @@ def r3_invalidate_before_destroy(facts, rep):
                     # the index is created in a directory that holds no older index: it was wiped on this path, or seen absent
                     n_create += 1
                     wiped = "remove_dir_all" in labels[:i]
-                    absent = any(isinstance(p_, _T) and p_.op in ("is_dir", "exists") and "index_path" in repr(p_) and b_ is False
+                    # "seen absent": a test of the directory's presence came out the other way than on the paths that wipe
+                    # it (is_dir() false, fs::metadata() failing or not a directory, exists() false ...)
+                    absent = any(presence(p_) and (not b_) in wipe_side.get(repr(p_), ()) and b_ not in wipe_side.get(repr(p_), ())
                                  for p_, b_ in dom.pc(o.store))
                     if not (wiped or absent):
                         dirty.append("effects %s with the directory %s" % (labels, "present" if any(
-                            isinstance(p_, _T) and p_.op in ("is_dir", "exists") and b_ is True for p_, b_ in dom.pc(o.store)) else "not looked at"))
+                            presence(p_) and b_ in wipe_side.get(repr(p_), ()) for p_, b_ in dom.pc(o.store)) else "not looked at"))
         v = o.value
         r = v.field(0) if isinstance(v, _Agg) and v.path == "std::result::Result" and v.vi == 0 else None
         flag = verdict_flag(facts, r) if r is not None else None
